@@ -145,7 +145,36 @@ def _case(rng):
             vals = vals + [off, off]
     return dict(stream=stream, method=method, clean=rng.choice(['mask', 'mask', 'none']), refhour=refhour, prior=prior,
                 bmode=rng.choice(['ignore', 'warn', 'error']), left=left, right=right, cdtype=cdtype, tz=tz, tunit=tunit,
-                coords=[lib.show_rat(x) for x in c], edges=edges, vals=[lib.show_rat(x) for x in vals])
+                coords=[lib.show_rat(x) for x in c], edges=edges, vals=[lib.show_rat(x) for x in vals],
+                # a missing coordinate (NaN) among the queries: its own answer is not compared, the others' are, and so is
+                # the out-of-domain report for them
+                nanq=(tz is None and method != 'exact' and rng.random() < 0.2))
+
+
+def _intcoord_case(rng):
+    """an integer-typed coordinate (hours, levels, julian days) with an odd spacing and no bounds variable, looked up with
+    method='bounds': the half-step edges are not integers"""
+    n = rng.randint(3, 6)
+    sp = rng.choice([1, 3, 5, 7])
+    b = rng.randint(-20, 20)
+    c = [Fraction(b + sp * i) for i in range(n)]
+    if rng.random() < 0.4:
+        c = c[::-1]
+    lo, hi = min(c) - Fraction(sp, 2), max(c) + Fraction(sp, 2)
+    vals = []
+    for _ in range(rng.randint(3, 8)):
+        k = rng.random()
+        if k < 0.7:
+            vals.append(lo + Fraction(rng.randrange(1, 8 * sp * n), 8))      # multiples of 1/8 inside the domain
+        elif k < 0.85:
+            vals.append(rng.choice(c))
+        else:
+            vals.append(rng.choice([lo - Fraction(rng.randint(1, 9), 4), hi + Fraction(rng.randint(1, 9), 4)]))
+    # not exactly on an edge (a tie between two cells)
+    vals = [v for v in vals if (v - lo) % sp != 0 or v in (lo, hi)] or [c[0]]
+    return dict(stream='margin', method='bounds', clean=rng.choice(['mask', 'none']), refhour=None, prior=False,
+                bmode=rng.choice(['ignore', 'warn', 'error']), left='none', right='none', cdtype=rng.choice(['i', 'h']), tz=None,
+                tunit='hours', coords=[lib.show_rat(x) for x in c], edges='none', vals=[lib.show_rat(x) for x in vals], nanq=False)
 
 
 def _t2t_case(rng):
@@ -187,7 +216,7 @@ def _t2t_case(rng):
 
 def gen(rng, tier):
     n = 500 if tier == 'quick' else 20000
-    return [_case(rng) for _ in range(n)] + [_t2t_case(rng) for _ in range(n // 8)]
+    return [_case(rng) for _ in range(n)] + [_t2t_case(rng) for _ in range(n // 8)] + [_intcoord_case(rng) for _ in range(n // 20)]
 
 
 def _fill(s):
@@ -324,6 +353,9 @@ def impl(case):
         return _impl_t2t(case)
     f = _mkfile(case)
     vals = np.array([float(Fraction(x)) for x in case['vals']])
+    nreal = len(vals)
+    if case.get('nanq'):
+        vals = np.append(vals, np.nan)
     with lib.pnc_warnings() as w:
         try:
             if case.get('tz'):
@@ -336,7 +368,7 @@ def impl(case):
             return dict(err=type(e).__name__, msg=str(e)[:80])
     warned = any('out of bounds' in x for x in w.msgs)
     m = np.ma.getmaskarray(r)
-    res = ['m' if m[i] else str(int(np.ma.getdata(r)[i])) for i in range(len(vals))]
+    res = ['m' if m[i] else str(int(np.ma.getdata(r)[i])) for i in range(nreal)]
     return dict(res=res, warned=warned)
 
 
